@@ -101,11 +101,23 @@ RECURSIVE GhostI(_, _)
 GhostI(c, i) == LET ch == {k \in c.kids[i] : c.leads[k]}
                 IN IF ch = {} THEN i ELSE GhostI(c, BestOfI(c, ch))
 
+\* Children considered at the STARTING node of a head search. A gap-slot node <<P, u>> (not the earliest node
+\* of its root) stands for "block P as of slot u": besides the empty continuation <<P, u+1>>, every block built
+\* on P after slot u is a candidate. The implementation attaches blocks to the earliest node of their parent root
+\* only ("legacy" in its own comments), so a search started at a gap-slot node - e.g. a justified checkpoint whose
+\* epoch start slot was skipped - sees the empty continuation alone: recorded finding fc-gap-start (lg = TRUE).
+StartKids(c, i, lg) ==
+    IF lg \/ IsBlock(nodes[i]) \/ nodes[i].slot = First(nodes[i].root) THEN c.kids[i]
+    ELSE c.kids[i] \cup {j \in Idx : /\ IsBlock(nodes[j]) /\ nodes[j].parent = nodes[i].root
+                                     /\ nodes[j].slot > nodes[i].slot /\ Key(nodes[j]) \notin detached}
+GhostFrom(c, i, lg) == LET ch == {k \in StartKids(c, i, lg) : c.leads[k]}
+                       IN IF ch = {} THEN i ELSE GhostI(c, BestOfI(c, ch))
+
 \* reply of FindHead(anchorRoot, anchorSlot): <<ok, key>>
-FindHeadOf(c, k) == IF ~Has(k) THEN <<FALSE, NoRef>>
-                    ELSE LET h == GhostI(c, IdxOf(k)) IN IF c.viable[h] THEN <<TRUE, KeyI(h)>> ELSE <<FALSE, NoRef>>
+FindHeadOf(c, k, lg) == IF ~Has(k) THEN <<FALSE, NoRef>>
+                        ELSE LET h == GhostFrom(c, IdxOf(k), lg) IN IF c.viable[h] THEN <<TRUE, KeyI(h)>> ELSE <<FALSE, NoRef>>
 HeadStart == IF pin # <<>> THEN pin ELSE <<just.root, StartSlot(just.epoch)>>
-HeadOf(c) == FindHeadOf(c, HeadStart)
+HeadOf(c, lg) == FindHeadOf(c, HeadStart, lg)
 
 ---------------------------------------------------------------------------
 (* Queries (C11): direct walks of the inserted tree                        *)
@@ -126,15 +138,15 @@ ClosestOf(a, t) == IF ~Known(a) \/ t < First(a) THEN <<FALSE, NoRef>>
 RECURSIVE PathDownI(_, _, _)
 PathDownI(c, i, stop) == IF i = stop \/ c.tpar[i] = 0 THEN <<KeyI(i)>>
                          ELSE <<KeyI(i)>> \o PathDownI(c, c.tpar[i], stop)
-CanonChainOf(c, a) == LET h == FindHeadOf(c, a) IN
+CanonChainOf(c, a, lg) == LET h == FindHeadOf(c, a, lg) IN
                       IF ~h[1] THEN <<FALSE, <<>>>>
                       ELSE <<TRUE, PathDownI(c, IdxOf(h[2]), IdxOf(a))>>
 
 \* Search(anchor, parentRoot?, slot?): block nodes in the anchor's transition subtree matching the filters
 BlockIdx == {i \in Idx : IsBlock(nodes[i])}
 IsLeafBlockI(i) == ~\E j \in BlockIdx : nodes[j].parent = nodes[i].root /\ j # i
-SearchOf(c, a, usePar, par, useSlot, slot) ==
-    LET h == FindHeadOf(c, a) IN
+SearchOf(c, a, usePar, par, useSlot, slot, lg) ==
+    LET h == FindHeadOf(c, a, lg) IN
     IF ~h[1] THEN <<FALSE, {}, {}>>
     ELSE LET ai == IdxOf(a)
              hi == IdxOf(h[2])
@@ -145,8 +157,8 @@ SearchOf(c, a, usePar, par, useSlot, slot) ==
 \* without filter the call "searches for heads"; the statement (C11) only fixes search by parent or slot, so
 \* the head search is constrained loosely: every leaf block of the subtree is reported, only blocks of the
 \* subtree are reported, and the canonical/non-canonical split is right.
-HeadSearchOK(c, a, ok, canon, non) ==
-    LET h == FindHeadOf(c, a) IN
+HeadSearchOK(c, a, ok, canon, non, lg) ==
+    LET h == FindHeadOf(c, a, lg) IN
     IF ~h[1] THEN ~ok
     ELSE LET ai == IdxOf(a)
              hi == IdxOf(h[2])
@@ -167,7 +179,7 @@ CanonAtAllowed(c, a, t, withBlock) ==
     IF ~Known(a) \/ t < First(a) THEN {<<FALSE, NoRef>>}
     ELSE LET start == <<a, First(a)>>
              si == IdxOf(start)
-             h == FindHeadOf(c, start) IN
+             h == FindHeadOf(c, start, FALSE) IN
          IF t = First(a)
          THEN (IF withBlock \/ ~IsBlock(nodes[si]) THEN {<<TRUE, start>>} ELSE {<<FALSE, NoRef>>})
          ELSE IF ~h[1] THEN {<<FALSE, NoRef>>}
